@@ -112,6 +112,9 @@ pub struct SimState {
     live_workers: u64,
     pub events: Vec<Ev>,
     pub counters: Counters,
+    /// addresses of `LockId::Other` locks in order of first use (addresses differ between
+    /// processes; the index does not)
+    other_locks: Vec<usize>,
     next_token: u64,
     pub torn_down: bool,
     pub stack_size: usize,
@@ -167,6 +170,7 @@ impl Sim {
                 live_workers: 0,
                 events: Vec::new(),
                 counters: Counters::default(),
+                other_locks: Vec::new(),
                 next_token: 0,
                 torn_down: false,
                 stack_size: cfg.stack_size,
@@ -209,7 +213,28 @@ impl Sim {
     // ---------------------------------------------------------------- ghost locks
 
     /// Returns the token identifying this hold.
-    pub fn acquire(&self, lock: LockId, excl: bool) -> u64 {
+    /// Replaces the address in `LockId::Other` by a small stable index.
+    fn canonical(&self, lock: LockId) -> LockId {
+        match lock {
+            LockId::Other(addr) => {
+                let mut st = self.st.borrow_mut();
+                let idx = match st.other_locks.iter().position(|a| *a == addr) {
+                    Some(i) => i,
+                    None => {
+                        st.other_locks.push(addr);
+                        st.other_locks.len() - 1
+                    }
+                };
+                let id = LockId::Other(idx);
+                st.locks.entry(id).or_default();
+                id
+            }
+            l => l,
+        }
+    }
+
+    pub fn acquire(&self, lock: LockId, excl: bool) -> (u64, LockId) {
+        let lock = self.canonical(lock);
         let task = me();
         let token = {
             let mut st = self.st.borrow_mut();
@@ -259,7 +284,7 @@ impl Sim {
             shuttle::thread::park();
         }
         self.log(Ev::Lock { task, lock, excl, kind: LockEvKind::Acquire });
-        token
+        (token, lock)
     }
 
     pub fn release(&self, lock: LockId, excl: bool, token: u64) {
@@ -638,7 +663,7 @@ impl SimHooks for Hooks {
             // outside a simulated execution (reference hosts, ide-layer checks): no ghost
             None => Box::new(()),
             Some(sim) => {
-                let token = sim.acquire(lock, excl);
+                let (token, lock) = sim.acquire(lock, excl);
                 Box::new(GhostGuard { lock, excl, token })
             }
         }
@@ -677,7 +702,11 @@ pub fn interleaving_hash(events: &[Ev]) -> u64 {
             Ev::Lock { task, lock, excl, kind } => {
                 h.u64(1);
                 h.u64(*task as u64);
-                h.u64(*lock as u64);
+                h.u64(match lock {
+                    LockId::SalsaRevision => 0,
+                    LockId::Vfs => 1,
+                    LockId::Other(i) => 2 + *i as u64,
+                });
                 h.u64(*excl as u64);
                 h.u64(*kind as u64);
             }
